@@ -4,8 +4,6 @@ generators, implementation runner, Gallina encoding, property oracle.
 Known findings exercised (tags):
   C14-abs-tolerance      Mesh.is_aligned / the setter use an ABSOLUTE tolerance (1e-12): with a cell
                          of <= 2e-12 every offset is 'aligned' (cases whose smallest cell is <= 2e-12)
-  C14-sel-face-rounding  Mesh.sel(range) whose bound coincides with a subregion face in
-                         non-representable coordinates keeps a rounding-wide sliver and raises
 """
 import math
 import os
@@ -25,7 +23,6 @@ SCALES = [1e-12, 1e-12, 1e-11, 1e-9, 1e-9, 1e-6, 1e-3, 1.0, 1.0]
 DIMS = [["x", "y", "z", "t"], ["a", "b", "c", "d"], ["r", "s", "u", "v"]]
 UNITS = [["m", "m", "m", "m"], ["nm", "s", "A", "K"]]
 TAG_ABS = "C14-abs-tolerance"
-TAG_SEL = "C14-sel-face-rounding"
 
 
 def S(x):
@@ -754,7 +751,7 @@ def run_case(c):
                     rec["oracle"].append("sel-range-region")
         elif st_ == "ok":
             rec["oracle"].append("outside-selection-accepted")
-        rec["tags"] = tags_abs + ([TAG_SEL] if (touching and not exact) else [])
+        rec["tags"] = tags_abs
         rec["oracle"] = sorted(set(rec["oracle"]))
         rec.update(obs=dict(status=st_, mesh=obs),
                    coq=f"CSelRange {g.b(exact)} {scoq} {g.nat(a)} {g.q(c['x1'])} {g.q(c['x2'])} {obs_coq(obs)}",
